@@ -22,6 +22,9 @@ var (
 	// HookDialer receives the *net.Dialer the program configured and returns
 	// the dialer to use in its place.
 	HookDialer func(d *net.Dialer) Dialer
+	// HookServe stands in for server.Serve in ck-server's main(): the harness
+	// receives the listener and the *server.State that main() initialised.
+	HookServe func(l net.Listener, state any)
 )
 
 // FatalExit is the panic value by which log.Fatal* of a program unwinds its
